@@ -146,6 +146,8 @@ class SymExec:
             return tt[2][idx]
         if isinstance(tt, tuple) and tt[0] == "tuple" and idx < len(tt[1]):
             return tt[1][idx]
+        if isinstance(tt, tuple) and tt[0] == "closure" and idx < len(tt[2]):
+            return tt[2][idx]          # captured variable of a closure value (inlined closure bodies read them)
         return ("field", tt, idx)
 
     def operand(self, env, op):
@@ -430,7 +432,11 @@ class SymExec:
             cb = self.prog.bodies[cal]
             sub = SymExec(self.prog, cb, max_paths=self.max_paths, max_visits=self.max_visits, call_model=self.call_model, inline=self.inline, depth=self.depth + 1, site_prefix=site)
             env = {}
-            for i, a in enumerate(args):
+            cargs = list(args)
+            if "{closure#" in cal.rsplit("::", 1)[-1] and len(cargs) == 2 and isinstance(cargs[1], tuple) and cargs[1][0] == "tuple":
+                # called through Fn/FnMut/FnOnce: the arguments arrive tupled, the closure body takes them untupled
+                cargs = [cargs[0]] + list(cargs[1][1])
+            for i, a in enumerate(cargs):
                 env[i + 1] = a
             alts = []
             for p in sub.paths(env):
@@ -576,6 +582,18 @@ def term_contains(t, pred):
     if isinstance(t, tuple):
         return any(term_contains(x, pred) for x in t if isinstance(x, tuple))
     return False
+
+
+def term_contains_all(t, pred):
+    """all sub-terms satisfying pred"""
+    out = []
+    if pred(t):
+        out.append(t)
+    if isinstance(t, tuple):
+        for x in t:
+            if isinstance(x, tuple):
+                out += term_contains_all(x, pred)
+    return out
 
 
 def must_conds(paths, bb):
